@@ -512,6 +512,9 @@ fn builtin_round(args: Vec<Rc<Object>>) -> Result<Rc<Object>, String> {
     match args[0].as_ref() {
         Object::Float(f) => {
             if let Object::Integer(n) = args[1].as_ref() {
+                if !(0..=18).contains(n) {
+                    return Err(String::from("precision should be between 0 and 18"));
+                }
                 let multiplier = 10i64.pow(*n as u32);
                 let rounded = (f * multiplier as f64).round() / multiplier as f64;
                 Ok(Rc::new(Object::Float(rounded)))
@@ -1158,10 +1161,16 @@ fn builtin_rand(args: Vec<Rc<Object>>) -> Result<Rc<Object>, String> {
     };
     match max.as_ref() {
         Object::Integer(n) => {
+            if *n < 0 {
+                return Err(String::from("max should not be negative"));
+            }
             let r = rng.gen_range(0..=*n) as i64;
             Ok(Rc::new(Object::Integer(r)))
         }
         Object::Float(n) => {
+            if !n.is_finite() || *n < 0.0 {
+                return Err(String::from("max should be a non-negative finite number"));
+            }
             let r = rng.gen_range(0.0..=*n) as f64;
             Ok(Rc::new(Object::Float(r)))
         }
